@@ -374,4 +374,115 @@ theorem readRecs_cut : ∀ (recs : List (List UInt8)), Frames recs → ∀ t, t 
         · simp only [List.take_succ_cons, List.flatten_cons, List.length_append]; omega
         · simp only [List.take_succ_cons, List.flatten_cons, List.length_append]; omega
 
+/-! ### passes over one reader -/
+
+theorem Frames.tail {b : List UInt8} {rs : List (List UInt8)} (h : Frames (b :: rs)) : Frames rs :=
+  fun c hc => h c (by simp [hc])
+
+theorem Frames.drop {rs : List (List UInt8)} (h : Frames rs) (j : Nat) : Frames (rs.drop j) :=
+  fun c hc => h c (List.mem_of_mem_drop hc)
+
+theorem scanOne_nil : scanOne [] = .eofAtOpcode := rfl
+
+/-- one pass over a (possibly cut) stream of frames `rs`: it yields the first `j` of them, all lying completely
+    before the cut, and leaves a (possibly cut) stream of the remaining frames; a pass that is not abandoned
+    yields every frame that lies completely before the cut -/
+theorem readPass_stream : ∀ (rs : List (List UInt8)), Frames rs → ∀ (f : Nat) (limit : Option Nat) (s : Nat),
+    (rs.flatten.take s).length < f →
+    ∃ j s', j ≤ rs.length ∧ (readPass f limit (rs.flatten.take s)).recs = rs.take j ∧
+      (readPass f limit (rs.flatten.take s)).rest = (rs.drop j).flatten.take s' ∧
+      (rs.take j).flatten.length + s' ≤ s ∧
+      (limit = none → j < rs.length → s < (rs.take (j + 1)).flatten.length)
+  | rs, h, 0, limit, s, hf => by omega
+  | [], h, f + 1, limit, s, hf => by
+    refine ⟨0, 0, by simp, ?_, ?_, by simp, by simp⟩
+    · simp only [List.flatten_nil, List.take_nil, readPass, scanOne_nil]; split <;> rfl
+    · simp only [List.flatten_nil, List.take_nil, readPass, scanOne_nil]; split <;> rfl
+  | b :: rs, h, f + 1, limit, s, hf => by
+    have hb := h b (by simp)
+    have hne := scanOne_nil_ne b hb
+    have hlen : 0 < b.length := List.length_pos_iff.mpr hne
+    by_cases hl : limit = some 0
+    · refine ⟨0, s, by simp, by simp [readPass, hl], by simp [readPass, hl], by simp, ?_⟩
+      intro hn; rw [hn] at hl; cases hl
+    · simp only [readPass, if_neg hl, List.flatten_cons]
+      by_cases h1 : s < b.length
+      · rw [List.take_append_of_le_length (by omega)]
+        refine ⟨0, 0, by simp, ?_, ?_, by simp, ?_⟩
+        · rcases scanOne_take b s hb h1 with e | e <;> simp [e]
+        · rcases scanOne_take b s hb h1 with e | e <;> simp [e]
+        · intro _ _; simp; omega
+      · rw [List.take_append, List.take_of_length_le (by omega), scanOne_append b _ hb]
+        simp only [take_frame]
+        have hf' : (rs.flatten.take (s - b.length)).length < f := by
+          simp only [List.flatten_cons] at hf
+          rw [List.take_append, List.take_of_length_le (by omega), List.length_append] at hf
+          omega
+        obtain ⟨j, s', hj, hr, hrest, hle, hmax⟩ :=
+          readPass_stream rs h.tail f (limit.map (· - 1)) (s - b.length) hf'
+        refine ⟨j + 1, s', by simp; omega, by simp [hr], by simp [hrest], ?_, ?_⟩
+        · simp only [List.take_succ_cons, List.flatten_cons, List.length_append]; omega
+        · intro hn hj1
+          have := hmax (by rw [hn]; rfl) (by simpa using hj1)
+          simp only [List.take_succ_cons, List.flatten_cons, List.length_append]; omega
+
+/-- all passes over one reader: together they yield the first `j` frames, all lying completely before the cut -/
+theorem readPasses_stream : ∀ (ops : List (Option Nat)) (rs : List (List UInt8)), Frames rs → ∀ s,
+    ∃ j, j ≤ rs.length ∧ allYielded (readPasses ops (rs.flatten.take s)) = rs.take j ∧
+      (rs.take j).flatten.length ≤ s
+  | [], rs, _, s => ⟨0, by simp, by simp [readPasses, allYielded], by simp⟩
+  | l :: ls, rs, h, s => by
+    obtain ⟨j1, s1, hj1, hr1, hrest1, hle1, _⟩ :=
+      readPass_stream rs h ((rs.flatten.take s).length + 1) l s (by omega)
+    obtain ⟨j2, hj2, hr2, hle2⟩ := readPasses_stream ls (rs.drop j1) (h.drop j1) s1
+    refine ⟨j1 + j2, ?_, ?_, ?_⟩
+    · rw [List.length_drop] at hj2; omega
+    · simp only [readPasses, allYielded, List.map_cons, List.flatten_cons]
+      rw [hr1, hrest1]
+      have := hr2
+      simp only [allYielded] at this
+      rw [this, List.take_add]
+    · rw [List.take_add, List.flatten_append, List.length_append]; omega
+
+theorem take_flatten_length_mono (rs : List (List UInt8)) {a b : Nat} (h : a ≤ b) :
+    (rs.take a).flatten.length ≤ (rs.take b).flatten.length := by
+  obtain ⟨c, rfl⟩ := Nat.exists_eq_add_of_le h
+  rw [List.take_add, List.flatten_append, List.length_append]; omega
+
+/-- a full iteration is a pass that is not abandoned -/
+theorem readRecs_eq_readPass : ∀ (f : Nat) (b : List UInt8),
+    (readRecs f b).recs = (readPass f none b).recs
+  | 0, b => rfl
+  | f + 1, b => by
+    simp only [readRecs, readPass]
+    rw [if_neg (by simp)]
+    cases scanOne b with
+    | done rest => simp only [Option.map_none]; rw [readRecs_eq_readPass f rest]
+    | eofAtOpcode => rfl
+    | truncatedArg => rfl
+    | badOpcode => rfl
+
+/-- complete frames in front of `x` are all yielded, then the reader goes on with `x` -/
+theorem readRecs_append : ∀ (l : List (List UInt8)), Frames l → ∀ (f : Nat) (x : List UInt8), l.length < f →
+    readRecs f (l.flatten ++ x) = ⟨(readRecs (f - l.length) x).status, l ++ (readRecs (f - l.length) x).recs⟩
+  | [], _, f, x, _ => by simp
+  | b :: rs, h, f + 1, x, hf => by
+    have hb := h b (by simp)
+    simp only [List.flatten_cons, List.append_assoc, readRecs]
+    rw [scanOne_append b _ hb]
+    simp only [take_frame]
+    rw [readRecs_append rs h.tail f x (by simpa using hf)]
+    simp only [List.length_cons, List.cons_append]
+    have : f + 1 - (rs.length + 1) = f - rs.length := by omega
+    rw [this]
+  | _ :: _, _, 0, _, hf => by simp at hf
+
+theorem frames_length_le : ∀ (l : List (List UInt8)), Frames l → l.length ≤ l.flatten.length
+  | [], _ => by simp
+  | b :: rs, h => by
+    have hne := scanOne_nil_ne b (h b (by simp))
+    have hlen : 0 < b.length := List.length_pos_iff.mpr hne
+    have := frames_length_le rs h.tail
+    simp only [List.length_cons, List.flatten_cons, List.length_append]; omega
+
 end SF.Pickle
